@@ -87,7 +87,7 @@ func TestC01(t *testing.T) {
 	p.Alt.Inject = true
 	p.W["deployp"], p.W["callp"] = 5, 12
 	p.W["propose"], p.W["vote"] = 10, 16
-	p.PEvidence = 8
+	p.PEvidence = 12
 	// big state: 8 % of the histories have 600 delegators behind up to 4 validators and blocks of up to 300 txs
 	// (whatever depends on sizes - batching, cache eviction, work handed to several goroutines - must not show)
 	p.Crowd, p.CrowdUsers = envInt("VERIF_C01_CROWD", 8), 600
